@@ -14,6 +14,7 @@ Section Inv.
   Variable o : eopts.
   Variable NN : Prop.
   Hypothesis Hsig : o_sig o <> Profiles.
+  Hypothesis HNcap : NN -> le_cap o 0.
 
   Notation Inv6 := (Inv6 o NN).
   Notation GI := (GI o NN).
@@ -29,7 +30,7 @@ Section Inv.
     destruct (D id (or_introl eq_refl)) as (Q1 & Q2 & Q3).
     assert (Hrefs : refs st' (d :: fdones (s_flushq st')) = d :: R) by reflexivity.
     assert (Hfd : forall f, free f (s_ref st) d = f d) by (intros f; unfold free; cbn; now rewrite Q2).
-    apply (consume_G o NN Hsig); [| exact Q1 | exact Q2 | exact Cn].
+    apply (consume_G o NN Hsig HNcap); [| exact Q1 | exact Q2 | exact Cn].
     unfold Proofs6.GI. rewrite Hrefs. cbn [st' s_ref s_queue s_next s_qsize s_stored s_kept].
     constructor; auto.
     - intros id' x m a Hi. destruct (B _ _ _ _ Hi) as [P1 P2]. split; auto. unfold occZ. rewrite dsum_cons.
@@ -45,9 +46,10 @@ Section Inv.
       destruct (is_storage o) eqn:Es; unfold is_storage in Es; rewrite Es in *; try discriminate. lia.
     - intros Hst. pose proof (Hs Hst) as E. unfold LS in *. rewrite dsum_cons, Hfd. cbn [d_items d].
       unfold qsum in *. cbn [map sumZ snd] in E. lia.
-    - intros HN. destruct (J HN) as (J1 & J2 & J3 & J4). inversion J3 as [|? ? Jh Jt]; subst. cbn [snd] in Jh.
+    - intros HN. destruct (J HN) as (J1 & J2 & J3 & J4 & J5). inversion J3 as [|? ? Jh Jt]; subst. cbn [snd] in Jh.
       assert (Hneg : negf d = 0) by (unfold negf; cbn [d_el d]; destruct (el_size o n <? 0) eqn:Qn; [apply Z.ltb_lt in Qn; lia|reflexivity]).
-      split; [rewrite dsum_cons; lia|]. split; [exact J2|]. split; [exact Jt|].
+      split; [rewrite dsum_cons; lia|]. split; [exact J2|]. split; [exact Jt|]. split;
+        [|destruct (is_storage o); [destruct t; [exact (HNcap HN)|exact J5]|exact J5]].
       intros Hst. specialize (J4 Hst). rewrite Hst.
       pose proof (LS_el_nonneg _ _ J1 J2) as HL. pose proof (qel_nonneg o _ Jt) as HQ.
       unfold LS in *. rewrite dsum_cons, Hfd. cbn [d_el d]. unfold qel in *. cbn [map sumZ snd] in J4.
@@ -57,7 +59,7 @@ Section Inv.
   Lemma pump_G f st : Inv6 st -> Inv6 (pump o f st).
   Proof.
     revert st. induction f as [|f IH]; intros st H; cbn [pump]; [exact H|].
-    pose proof (work_G o NN st H) as H1.
+    pose proof (work_G o NN HNcap st H) as H1.
     destruct (s_hung (work o st)); [exact H1|].
     destruct (s_queue (work o st)) eqn:E; [exact H1|]. apply IH, read_one_G, H1.
   Qed.
@@ -70,9 +72,9 @@ Section Inv.
   Qed.
 
   Lemma accept_G st n :
-    Inv6 st -> (NN -> 0 <= el_size o n) -> Inv6 (accept o st n).
+    Inv6 st -> (NN -> 0 <= el_size o n) -> (NN -> le_cap o (s_qsize st + el_size o n)) -> Inv6 (accept o st n).
   Proof.
-    intros H Hel. unfold Proofs7.Inv6, Proofs6.GI in *. destruct H as [A B C D F G Hm Hs J].
+    intros H Hel Hcp. unfold Proofs7.Inv6, Proofs6.GI in *. destruct H as [A B C D F G Hm Hs J].
     unfold accept. cbn [s_ref s_queue s_next s_qsize s_stored s_kept s_flushq].
     change (refs _ (fdones (s_flushq st))) with (refs st (fdones (s_flushq st))).
     set (R := refs st (fdones (s_flushq st))) in *.
@@ -87,7 +89,7 @@ Section Inv.
     - intros id Hi. specialize (G id Hi). lia.
     - intros Hst. rewrite (Hm Hst). unfold qel. rewrite map_app, sumZ_app. cbn. lia.
     - intros Hst. rewrite Hst. pose proof (Hs Hst). rewrite qsum_app. unfold qsum at 2. cbn. lia.
-    - intros HN. destruct (J HN) as (J1 & J2 & J3 & J4). split; [exact J1|]. split; [exact J2|]. split.
+    - intros HN. destruct (J HN) as (J1 & J2 & J3 & J4 & J5). split; [exact J1|]. split; [exact J2|]. split; [|split; [|exact (Hcp HN)]].
       + apply Forall_app. split; [exact J3|]. repeat constructor. cbn [snd]. auto.
       + intros Hst. specialize (J4 Hst). specialize (Hel HN). unfold qel in *. rewrite map_app, sumZ_app. cbn. lia.
   Qed.
@@ -100,6 +102,7 @@ Section Inv2.
   Variable o : eopts.
   Variable NN : Prop.
   Hypothesis Hsig : o_sig o <> Profiles.
+  Hypothesis HNcap : NN -> le_cap o 0.
 
   Notation Inv6 := (Inv6 o NN).
 
@@ -119,14 +122,17 @@ Section Inv2.
     assert (H0 : Inv6 (add_offered st n)) by (eapply view_Inv6; [..|exact H]; reflexivity).
     assert (Hnote : forall s k, Inv6 s -> Inv6 (note_send o s k)) by (intros s k Hs; unfold note_send; destruct (is_wfr o); exact Hs).
     assert (Hrej : Inv6 (reject o (add_offered st n) n)) by (eapply view_Inv6; [..|exact H0]; reflexivity).
-    destruct (qc o) as [c|].
-    - destruct (q_storage c).
+    destruct (qc o) as [c|] eqn:Eqc.
+    - (* an accepted request fits: the capacity check just passed *)
+      assert (Hfit : over (q_cap c) (s_qsize (add_offered st n) + el_size o n) = false -> NN -> le_cap o (s_qsize (add_offered st n) + el_size o n)).
+      { intros Ho _. unfold le_cap, capb. rewrite Eqc. unfold over in Ho. destruct (q_cap c) as [cp|]; [apply Z.ltb_ge in Ho; exact Ho|exact I]. }
+      destruct (q_storage c).
       + destruct (q_block c && over (q_cap c) (el_size o n)); [apply Hnote, Hrej|].
-        destruct (over (q_cap c) _); [unfold no_room; apply Hnote, Hrej|].
+        destruct (over (q_cap c) _) eqn:Eo; [unfold no_room; apply Hnote, Hrej|].
         destruct (n =? o_badmarshal o); [apply Hnote, Hrej|apply Hnote, (accept_G o NN); auto].
       + destruct (el_size o n =? 0); [apply Hnote, H0|]. destruct (over (q_cap c) (el_size o n)); [apply Hnote, Hrej|].
-        destruct (over (q_cap c) _); [unfold no_room; apply Hnote, Hrej|apply Hnote, (accept_G o NN); auto].
-    - apply (work_G o NN). unfold Proofs7.Inv6, Proofs6.GI, push_flushes in *.
+        destruct (over (q_cap c) _) eqn:Eo; [unfold no_room; apply Hnote, Hrej|apply Hnote, (accept_G o NN); auto].
+    - apply (work_G o NN HNcap). unfold Proofs7.Inv6, Proofs6.GI, push_flushes in *.
       cbn [s_ref s_queue s_next s_qsize s_stored s_kept s_flushq set_flushq].
       eapply GIR_equiv; [|exact H0]. intros g. rewrite !dsum_refs. cbn [s_cur s_hung set_flushq].
       rewrite fdones_app, dsum_app. cbn [fdones flat_map snd app]. rewrite dsum_nil. lia.
@@ -145,18 +151,21 @@ Section Inv2.
   Proof.
     revert st. induction ns as [|n ns IH]; intros st F H; cbn [fold_left]; [exact H|].
     apply IH; [intros HN; specialize (F HN); now inversion F|].
-    apply (pump_closed_G o NN Hsig), offer_G; [intros HN; specialize (F HN); now inversion F|exact H].
+    apply (pump_closed_G o NN Hsig HNcap), offer_G; [intros HN; specialize (F HN); now inversion F|exact H].
   Qed.
 
   Lemma step_G st op : (NN -> eop_nonneg op) -> Inv6 st -> Inv6 (step o st op).
   Proof.
-    intros Hop H. destruct op as [n|ns| |ns]; cbn [step]; [| | |eapply view_Inv6; [..|exact (fold_offer_G ns st Hop H)]; reflexivity].
-    - assert (H1 : Inv6 (run_quiet o (offer o st n))) by (apply (pump_G o NN Hsig), offer_G; [exact Hop|exact H]).
+    intros Hop H. destruct op as [n|ns| |ns]; cbn [step]; cbv zeta; [| | |eapply view_Inv6; [..|exact (fold_offer_G ns st Hop H)]; reflexivity].
+    - assert (H1 : Inv6 (run_quiet o (offer o st n))) by (apply (pump_G o NN Hsig HNcap), offer_G; [exact Hop|exact H]).
       destruct (is_wfr o).
-      + eapply view_Inv6; [..|apply (pump_G o NN Hsig), flush_cur_G, H1]; reflexivity.
+      + eapply view_Inv6; [..|apply (pump_G o NN Hsig HNcap), flush_cur_G, H1]; reflexivity.
       + eapply view_Inv6; [..|exact H1]; reflexivity.
-    - apply (pump_G o NN Hsig). eapply view_Inv6; [..|exact (fold_offer_G ns st Hop H)]; reflexivity.
-    - eapply view_Inv6; [..|apply (pump_G o NN Hsig), flush_cur_G, H]; reflexivity.
+    - match goal with |- context [run_quiet o (gauge ?X)] => assert (H2 : Inv6 (run_quiet o (gauge X))) by (apply (pump_G o NN Hsig HNcap); eapply view_Inv6; [..|exact (fold_offer_G ns st Hop H)]; reflexivity) end.
+      destruct (is_wfr o).
+      + eapply view_Inv6; [..|apply (pump_G o NN Hsig HNcap), flush_cur_G, H2]; reflexivity.
+      + eapply view_Inv6; [..|exact H2]; reflexivity.
+    - eapply view_Inv6; [..|apply (pump_G o NN Hsig HNcap), flush_cur_G, H]; reflexivity.
   Qed.
 
   Lemma steps_G ops st : (NN -> Forall eop_nonneg ops) -> Inv6 st -> Inv6 (fold_left (step o) ops st).
@@ -168,7 +177,7 @@ Section Inv2.
   Lemma init_G outs : Inv6 (init_est outs).
   Proof.
     unfold Proofs7.Inv6, Proofs6.GI, refs. cbn. constructor; cbn; try constructor; try tauto; try reflexivity.
-    split; [intros ? ? ? ? []|]. split; [constructor|]. intros _. unfold LS, csum, dsum. cbn. lia.
+    split; [intros ? ? ? ? []|]. split; [constructor|]. split; [intros _; unfold LS, csum, dsum; cbn; lia|auto].
   Qed.
 
   Lemma release_hung_G st : Inv6 st -> Inv6 (release_hung o st).
@@ -176,17 +185,17 @@ Section Inv2.
     intros H. unfold release_hung. destruct (s_hung st) as [[items ds]|] eqn:Eh; [|exact H].
     match goal with |- Proofs7.Inv6 o NN (fire_all o RShutdown ds ?s) => set (s0 := s) end.
     unfold Proofs7.Inv6. destruct (fire_all_frame o Hsig RShutdown ds s0) as (_ & _ & Fq & _). rewrite Fq.
-    apply (fire_all_G o NN). unfold Proofs6.GI in *. subst s0. cbn [s_ref s_queue s_next s_qsize s_stored s_kept s_flushq].
+    apply (fire_all_G o NN HNcap). unfold Proofs6.GI in *. subst s0. cbn [s_ref s_queue s_next s_qsize s_stored s_kept s_flushq].
     eapply GIR_equiv; [|exact H]. intros g. rewrite !dsum_refs. cbn [s_cur s_hung]. rewrite Eh. cbn [odones snd].
     rewrite dsum_app, dsum_nil. lia.
   Qed.
 
   Lemma shutdown_G st : Inv6 st -> Inv6 (shutdown o st).
   Proof.
-    intros H. unfold shutdown. apply (work_G o NN), flush_cur_G.
+    intros H. unfold shutdown. apply (work_G o NN HNcap), flush_cur_G.
     assert (H1 : Inv6 (work o (release_hung o (set_down st)))).
-    { apply (work_G o NN), release_hung_G. eapply view_Inv6; [..|exact H]; reflexivity. }
-    destruct (is_storage o); [exact H1|apply (pump_G o NN Hsig), H1].
+    { apply (work_G o NN HNcap), release_hung_G. eapply view_Inv6; [..|exact H]; reflexivity. }
+    destruct (is_storage o); [exact H1|apply (pump_G o NN Hsig HNcap), H1].
   Qed.
 
   Lemma run_exporter_G outs ops : (NN -> Forall eop_nonneg ops) -> Inv6 (run_exporter o outs ops).
@@ -209,7 +218,7 @@ Lemma exporter_stored_general_l o outs ops :
   s_stored st = qsum (s_queue st) + s_kept st.
 Proof.
   intros Hsig Hb Hst st.
-  pose proof (run_exporter_G o False Hsig outs ops (fun F => match F with end)) as G. fold st in G.
+  pose proof (run_exporter_G o False Hsig (fun F0 : False => match F0 with end) outs ops (fun F => match F with end)) as G. fold st in G.
   destruct (shutdown_end o Hsig Hb (fold_left (step o) ops (init_est outs))) as (Q1 & Q2 & Q3 & Q4).
   cbn zeta in *. fold (run_exporter o outs ops) in *. fold st in Q1, Q2, Q3, Q4.
   pose proof (no_refs_no_live o False st d_items G Q1 Q3 Q2) as L.
@@ -247,9 +256,9 @@ Lemma mem_size_exact_l o outs ops :
   s_qsize st = outstanding_size o st /\ s_qsize (shutdown o st) = 0.
 Proof.
   intros Hsig Hb Hst st. split.
-  - pose proof (steps_G o False Hsig ops (init_est outs) (fun F => match F with end) (init_G o False outs)) as G. fold st in G.
+  - pose proof (steps_G o False Hsig (fun F0 : False => match F0 with end) ops (init_est outs) (fun F => match F with end) (init_G o False (fun F0 : False => match F0 with end) outs)) as G. fold st in G.
     unfold Proofs7.Inv6, Proofs6.GI in G. destruct G as [_ _ _ _ _ _ Hm _ _]. exact (Hm Hst).
-  - pose proof (shutdown_G o False Hsig st (steps_G o False Hsig ops (init_est outs) (fun F => match F with end) (init_G o False outs))) as G.
+  - pose proof (shutdown_G o False Hsig (fun F0 : False => match F0 with end) st (steps_G o False Hsig (fun F0 : False => match F0 with end) ops (init_est outs) (fun F => match F with end) (init_G o False (fun F0 : False => match F0 with end) outs))) as G.
     destruct (shutdown_end o Hsig Hb st) as (Q1 & Q2 & Q3 & Q4). cbn zeta in *.
     pose proof (no_refs_no_live o False (shutdown o st) d_el G Q1 Q3 Q2) as L.
     unfold Proofs7.Inv6, Proofs6.GI in G. destruct G as [_ _ _ _ _ _ Hm _ _]. rewrite (Hm Hst), L, (Q4 Hst). reflexivity.
@@ -263,7 +272,7 @@ Lemma mem_size_exact_burst_l o outs ops ns :
   s_qsize st1 = outstanding_size o st1.
 Proof.
   intros Hsig Hst st st1.
-  pose proof (fold_offer_G o False Hsig ns st (fun F => match F with end) (steps_G o False Hsig ops (init_est outs) (fun F => match F with end) (init_G o False outs))) as G. fold st1 in G.
+  pose proof (fold_offer_G o False Hsig (fun F0 : False => match F0 with end) ns st (fun F => match F with end) (steps_G o False Hsig (fun F0 : False => match F0 with end) ops (init_est outs) (fun F => match F with end) (init_G o False (fun F0 : False => match F0 with end) outs))) as G. fold st1 in G.
   unfold Proofs7.Inv6, Proofs6.GI in G. destruct G as [_ _ _ _ _ _ Hm _ _]. exact (Hm Hst).
 Qed.
 
@@ -283,22 +292,22 @@ Lemma persistent_size_undercounts_l :
     s_qsize st = 2 /\ outstanding_size o st = 3.
 Proof.
   exists opts_pq, st_pq. split; [discriminate|]. split; [reflexivity|]. split.
-  - apply (fold_offer_G opts_pq True ltac:(discriminate)); [intros _; repeat constructor; lia|apply init_G].
+  - apply (fold_offer_G opts_pq True ltac:(discriminate) (fun _ => ltac:(vm_compute; discriminate))); [intros _; repeat constructor; lia|apply init_G; intros _; vm_compute; discriminate].
   - vm_compute. split; reflexivity.
 Qed.
 
 (* persistent queue: the size field never OVER-counts (histories of non-negative item counts) *)
 Lemma persistent_size_bound_l o outs ops ns :
-  o_sig o <> Profiles -> Forall eop_nonneg ops -> Forall (fun n => 0 <= n) ns -> is_storage o = true ->
+  o_sig o <> Profiles -> le_cap o 0 -> Forall eop_nonneg ops -> Forall (fun n => 0 <= n) ns -> is_storage o = true ->
   let st := fold_left (step o) ops (init_est outs) in
   let st1 := fold_left (fun s n => let s' := offer o s n in pump_closed o (S (length (s_queue s'))) s') ns st in
   0 <= s_qsize st <= outstanding_size o st /\ 0 <= s_qsize st1 <= outstanding_size o st1.
 Proof.
-  intros Hsig F Fn Hst st st1.
-  pose proof (steps_G o True Hsig ops (init_est outs) (fun _ => F) (init_G o True outs)) as G. fold st in G.
-  pose proof (fold_offer_G o True Hsig ns st (fun _ => Fn) G) as G1. fold st1 in G1.
+  intros Hsig Hc0 F Fn Hst st st1.
+  pose proof (steps_G o True Hsig (fun _ => Hc0) ops (init_est outs) (fun _ => F) (init_G o True (fun _ => Hc0) outs)) as G. fold st in G.
+  pose proof (fold_offer_G o True Hsig (fun _ => Hc0) ns st (fun _ => Fn) G) as G1. fold st1 in G1.
   unfold Proofs7.Inv6, Proofs6.GI in G, G1.
   destruct G as [_ _ _ _ _ _ _ _ J]. destruct G1 as [_ _ _ _ _ _ _ _ J1].
-  destruct (J I) as (_ & _ & _ & B). destruct (J1 I) as (_ & _ & _ & B1).
+  destruct (J I) as (_ & _ & _ & B & _). destruct (J1 I) as (_ & _ & _ & B1 & _).
   split; [exact (B Hst)|exact (B1 Hst)].
 Qed.
